@@ -47,7 +47,7 @@ class Lock:
 # table name of `extract` -> the generated Lean modules under Zrnt/Gen it writes
 GEN_TABLE_MODULES = {"configs": ["Configs"], "faultsites": ["FaultSites"], "lockfacts": ["LockFacts", "LockFactsOk"],
                      "sszfacts": ["SszFacts"], "sszcodec": ["SszCodec"], "sszroot": ["SszRoot"], "ssztags": ["SszTags"], "statefacts": ["StateFacts"],
-                     "blocklimits": ["BlockLimits"]}
+                     "blocklimits": ["BlockLimits"], "stageorder": ["StageOrder"]}
 
 
 def regen_items_in_cone(cone_files):
